@@ -522,7 +522,10 @@ def main(ctx):
     'valrdy_queues.py is loaded with InValRdyIfc/OutValRdyIfc bound to the stream val/rdy interfaces because pymtl3.stdlib.ifcs does not define them in this tree',
     'CL queues: peek() is not driven; NormalQueueCL is checked for the block order the scheduler actually chose (the theorem covers both orders)',
     'message payload: Bits8, 1 symbol bit + counter; entry types other than Bits8 are not exercised']
-  ctx.build_props(extra_models=['theories/Lib/QueueCheck.vo'])
+  import stdlib_gen
+  # T-gen: the real component's update blocks are translated on every run (translators/stdlib2coq.py) and proved equal to
+  # the hand model at small parameters (Props/C17_gen.v)
+  ctx.build_props(gen_cmds=stdlib_gen.gen_cmds('queues'), extra_models=['theories/Lib/QueueCheck.vo'])
   try:
     run(ctx)
   except Exception as e:
